@@ -470,6 +470,11 @@ func readStreamingPacket(conn net.Conn, buf []byte) (int, error) {
 }
 
 func writeStreamingPacket(conn net.Conn, buf []byte) (int, error) {
+	// RFC 4571 frames carry a 16-bit length: a longer packet cannot be framed.
+	if len(buf) > 0xFFFF {
+		return 0, io.ErrShortBuffer
+	}
+
 	bufCopy := make([]byte, streamingPacketHeaderLen+len(buf))
 	binary.BigEndian.PutUint16(bufCopy, uint16(len(buf))) //nolint:gosec // G115
 	copy(bufCopy[2:], buf)
